@@ -23,6 +23,9 @@ use crate::{
     util::{self, sync::SyncWrap},
 };
 
+#[cfg(divan_verif)]
+use crate::__verif::shim as std;
+
 #[cfg(test)]
 mod tests;
 
